@@ -63,4 +63,23 @@ PROPS = {
             det("durations", "^TestC15Durations$"),
         ],
     },
+    "C11": {
+        "level": "exploration",
+        "level_text": "generated search over conformant packets with three oracles per packet (parse of the reference encoding, write against "
+                      "the reference encoding, byte-identical re-emission), plus complete enumeration of the small header domains and "
+                      "of every single-bit value of every wide field; a pass means no counter-example among those cases",
+        "level_note": "trusts harness/ref/ts.go (bit-level encoder written from ISO 13818-1 2.4.3; its decoder is cross-checked against it "
+                      "in setup); IsOneByteStuffing is not compared on parse (documented as not part of the TS format)",
+        "technique": "rapid property test + deterministic sweeps against an independent bit-level TS packet encoder (round trip and differential)",
+        "rule": "rapid-generated and enumerated conformant 188-byte packets; non-trivial = adaptation field with at least one optional part "
+                "(rapid) / every enumerated case (sweep); distinct by packet bytes",
+        "assumptions": ["conformant packets only: reserved bits 1, stuffing 0xFF, no reserved trailing bytes inside the adaptation field extension",
+                        "TransportPrivateDataLength == len(TransportPrivateData) on the write side"],
+        "units": [
+            rap("packets", "^TestC11Packets$", 30000, 150000, 4, 16),
+            det("sweep", "^TestC11Sweep$"),
+            rap("write_short", "^TestC11WriteShort$", 5000, 40000, 1, 8),
+            rap("stream", "^TestC11Stream$", 5000, 40000, 2, 8),
+        ],
+    },
 }
